@@ -13,7 +13,8 @@ Nothing here is registered in MANIFEST.json; it is a development tool (results s
 import json, os, re, shutil, subprocess, sys, hashlib
 from concurrent.futures import ThreadPoolExecutor
 
-ROOT = "/root/scratch/mut"
+ROOT = os.environ.get("MUT_ROOT", "/root/scratch/mut")
+SET2 = os.environ.get("MUT_SET") == "2"
 REPO = "/repo"
 FILES = {
     "src/fiber_manager.c": ["C01", "C03", "C05", "C06", "C04"],
@@ -120,6 +121,42 @@ def gen():
             m = re.match(r"^(\s*)(if|while) \((.*)\) \{\s*$", l)
             if m and m.group(2) == "if":
                 cands.append(("negate-if", "%sif (!(%s)) {" % (m.group(1), m.group(3))))
+            if SET2:
+                cands = []
+                # (1) integer literals 0 <-> 1, n -> n+1 (not in array sizes / shifts of types)
+                for m in re.finditer(r"(?<![A-Za-z_0-9.])(\d+)(?![A-Za-z_0-9.xX])", l):
+                    v = int(m.group(1))
+                    for nv in ({0: [1], 1: [0, 2]}.get(v, [v + 1, v - 1])):
+                        cands.append(("lit:%d->%d" % (v, nv), l[:m.start()] + str(nv) + l[m.end():]))
+                # (2) drop one operand of && / ||
+                for m in re.finditer(r"\s*(&&|\|\|)\s*", l):
+                    mm = re.match(r"^(\s*(?:if|while|\}\s*while|else if)\s*\()(.*)(\)\s*\{?\s*;?\s*)$", l)
+                    if mm and mm.group(2).count("(") == mm.group(2).count(")"):
+                        a, b = l[:m.start()], l[m.end():]
+                        pre, post = mm.group(1), mm.group(3)
+                        left = a[len(pre):]
+                        right = b[:len(b) - len(post)]
+                        if left.count("(") == left.count(")") and right.count("(") == right.count(")"):
+                            cands.append(("drop-right:%s" % m.group(1), pre + left + post))
+                            cands.append(("drop-left:%s" % m.group(1), pre + right + post))
+                # (3) return value
+                m = re.match(r"^(\s*)return\s+(.+);\s*$", l)
+                if m and m.group(2).strip() not in ("0", "1", "NULL"):
+                    cands.append(("return->0", m.group(1) + "return 0;"))
+                elif m and m.group(2).strip() == "0":
+                    cands.append(("return 0->1", m.group(1) + "return 1;"))
+                elif m and m.group(2).strip() == "1":
+                    cands.append(("return 1->0", m.group(1) + "return 0;"))
+                # (4) atomic op flips
+                for (a, b) in (("atomic_fetch_add", "atomic_fetch_sub"), ("atomic_fetch_sub", "atomic_fetch_add"),
+                               ("__sync_add_and_fetch", "__sync_sub_and_fetch"), ("__sync_sub_and_fetch", "__sync_add_and_fetch"),
+                               ("__sync_fetch_and_add", "__sync_fetch_and_sub"), ("atomic_exchange(", "atomic_load(")):
+                    if a in l:
+                        cands.append(("atomic:%s" % a, l.replace(a, b, 1)))
+                # (5) remove a logical negation
+                for m in re.finditer(r"!(?!=)", l):
+                    cands.append(("drop-not", l[:m.start()] + l[m.end():]))
+                # (6) field swap on the same line pattern x->a / x->b is too file specific: skip
             for (kind, new) in cands:
                 mid = hashlib.sha1(("%s:%d:%s:%s" % (f, i, kind, new)).encode()).hexdigest()[:10]
                 out.append({"id": mid, "file": f, "line": i + 1, "kind": kind, "old": l.strip(), "new": (new or "").strip(),
